@@ -166,9 +166,9 @@ def repetition_cases():
                 exp.append('\tdb ' + ','.join(grp))
             if ln % g == 0:
                 yield pair(['\tirpn %d,%s,%s' % (g, ','.join(names), ','.join(lst)), '\tdb ' + ','.join(names), '\tendm', '\tdb 9'], exp + ['\tdb 9'], 'irpn/g=%d' % g)
-    for s in ('', 'a', 'ab', 'abc', 'a b', 'a,b'):
-        if s:
-            yield pair(['\tirpc C,"%s"' % s, "\tdb 'C'", '\tendm', '\tdb 9'], ["\tdb '%s'" % c for c in s] + ['\tdb 9'], 'irpc')
+    for s in ('', 'a', 'ab', 'abc', 'a b', 'a,b'):      # (no character: no iteration)
+        if True:
+            yield pair(['\tirpc C,"%s"' % s, "\tdb 'C'", '\tdb 7', '\tendm', '\tdb 9'], [x for c in s for x in ("\tdb '%s'" % c, '\tdb 7')] + ['\tdb 9'], 'irpc')
     for n in (0, 1, 3):
         yield pair(['cnt\tset 0', '\twhile cnt<%d' % n, '\tdb cnt', 'cnt\tset cnt+1', '\tendm', '\tdb 9'], ['\tdb %d' % i for i in range(n)] + ['\tdb 9'], 'while')
     # EXITM at every body position of a 3-line macro / rept body
